@@ -299,6 +299,7 @@ EDGES = [
     "int f(void); int f(void) __asm__(\"g\");", "int x; int x __asm__(\"y\");", "int counter; int get(void){ extern int counter __asm__(\"ctr\"); return counter; }",
     "int f(void) __asm__(\"g\"); int f(void);", "int x __asm__(\"y\"); int x __asm__(\"z\");", "extern int x __asm__(\"y\"); int x = 1; int x __asm__(\"y\");", "void h(void){ extern int q; { extern int q __asm__(\"r\"); } }",
     "int f(void); void h(void){ int f(void) __asm__(\"g\"); }", "static int s; static int s __asm__(\"t\");", "int x __asm__(\"\"); int y __asm__(\"a b\"); int z __asm__(\"\\\"\");",
+    "enum E; enum E x; int y;", "enum E *p; enum E v;", "void f(void){ enum F; enum F w; }", "struct S; struct S x;", "union U y; union U;",
     "static int x = 1/0;", "static int x = 1%0;", "static unsigned x = 1u/0u;", "static unsigned long x = 1ul%0ul;",
     "void f(int a){switch(a){case 1/0:;}}", "enum e {A = 1/0};", "int a[1/0];", "struct s {int x:1/0;};",
     "static int x = (-2147483647-1)/-1;", "static int x = (-2147483647-1)%-1;",
